@@ -11,9 +11,9 @@ SC=/tmp/sc_T7_$NAME
 OUT=/tmp/sc_T7_out_$NAME
 rm -rf "$OUT"; git -C /repo worktree remove --force "$SC" 2>/dev/null || true
 git -C /repo worktree add --detach "$SC" HEAD >/dev/null 2>&1
-( cd "$SC" && /venv/bin/python "$HERE/edits/$NAME.py" ) || { echo "$NAME: edit failed"; git -C /repo worktree remove --force "$SC"; exit 1; }
-git -C "$SC" diff > "$HERE/$NAME.diff"
-head -1 "$HERE/edits/$NAME.py" | sed 's/^# *//' > "$HERE/$NAME.result"
+( cd "$SC" && if [ -f "$HERE/seeded/$NAME.diff" ]; then git apply "$HERE/seeded/$NAME.diff"; else /venv/bin/python "$HERE/edits/$NAME.py"; fi ) || { echo "$NAME: edit failed"; git -C /repo worktree remove --force "$SC"; exit 1; }
+[ -f "$HERE/seeded/$NAME.diff" ] || git -C "$SC" diff > "$HERE/$NAME.diff"
+if [ -f "$HERE/seeded/$NAME.diff" ]; then echo "HARMLESS (behaviour-preserving refactoring written by an independent sub-agent): /verif/seeded/harmless/$NAME/patch.diff" > "$HERE/$NAME.result"; else head -1 "$HERE/edits/$NAME.py" | sed 's/^# *//' > "$HERE/$NAME.result"; fi
 cd "$ROOT"
 for PROP in "$@"; do
   rm -rf "$OUT"
